@@ -271,7 +271,7 @@ Qed.
 Lemma add_consumer_offset_shape cf now st c g t p off order ts :
   add_consumer_offset cf now st c g t p off order ts = Done st RNone \/
   exists cl parts last, get st c = Some cl /\ cf_accept cf g = true /\ too_old cf now ts = false /\
-    get (cl_broker cl) t <> None /\
+    get (cl_broker cl) t <> None /\ (last = ts \/ last = g_last (grp_or_empty cl g)) /\
     add_consumer_offset cf now st c g t p off order ts =
       Done (set st c (mkCluster (cl_broker cl)
                         (set (cl_consumer cl) g (mkCgroup (set (g_topics (grp_or_empty cl g)) t parts) last)))) RNone.
@@ -285,8 +285,8 @@ Proof.
   right. cbv zeta.
   match goal with |- context [ring_step ?a ?b ?x ?d] => destruct (ring_step a b x d) as [w' app] end.
   eexists cl, _, _. split; [reflexivity|]. split; [reflexivity|]. split; [reflexivity|].
-  split; [|reflexivity].
-  apply (get_broker_offset_cnt _ _ _ _ _ Hb). apply Z.eqb_neq. exact Hz.
+  split; [apply (get_broker_offset_cnt _ _ _ _ _ Hb); apply Z.eqb_neq; exact Hz|].
+  split; [|reflexivity]. destruct app; [left|right]; reflexivity.
 Qed.
 
 Lemma add_consumer_owner_shape cf st c g t p owner client :
@@ -434,7 +434,7 @@ Proof.
     apply wf_state_set; [exact Hwf|]. destruct (Hall _ _ Hc) as [Hb [Hcn Hg]].
     split; [apply nodup_set; exact Hb|]. split; [exact Hcn|exact Hg].
   - (* SetConsumerOffset *)
-    destruct (add_consumer_offset_shape cf now s c g t p off order ts) as [E|[cl [parts [lst [Hc [_ [_ [_ E]]]]]]]];
+    destruct (add_consumer_offset_shape cf now s c g t p off order ts) as [E|[cl [parts [lst [Hc [_ [_ [_ [_ E]]]]]]]]];
       rewrite E; intros H; injection H as <- _; [exact Hwf|].
     apply wf_state_set; [exact Hwf|]. pose proof (Hall _ _ Hc) as Hcl.
     apply wf_cluster_set_group; [exact Hcl|apply Hcl|]. cbn [g_topics]. apply nodup_set.
@@ -1183,7 +1183,7 @@ Proof.
   - destruct (add_broker_offset_shape cf s c0 t p cnt off) as [E|[E|[cl [tl [Hc E]]]]]; rewrite E; intros H;
       [injection H as <- _; exact Ha|discriminate|injection H as <- _].
     apply (absent_group_set _ _ _ _ _ _ Ha Hc). intros _ Hn. exact Hn.
-  - destruct (add_consumer_offset_shape cf now s c0 g0 t p off order ts) as [E|[cl [parts [lst [Hc [_ [_ [_ E]]]]]]]];
+  - destruct (add_consumer_offset_shape cf now s c0 g0 t p off order ts) as [E|[cl [parts [lst [Hc [_ [_ [_ [_ E]]]]]]]]];
       rewrite E; intros H; injection H as <- _; [exact Ha|].
     apply (absent_group_set _ _ _ _ _ _ Ha Hc). intros -> Hn. cbn [cl_consumer]. rewrite get_set.
     destruct (g0 =? g) eqn:Eg; [|exact Hn]. apply Z.eqb_eq in Eg. subst g0. exfalso. apply Hcr. cbn. auto.
@@ -1323,7 +1323,7 @@ Proof.
   - destruct (add_broker_offset_shape cf s c0 t0 p cnt off) as [E|[E|[cl [tl [Hc E]]]]]; rewrite E; intros H;
       [injection H as <- _; exact Ha|discriminate|injection H as <- _].
     apply (absent_gt_set _ _ _ _ _ _ _ Ha Hc). intros _ grp' Hg Hold. exact (Hold _ Hg).
-  - destruct (add_consumer_offset_shape cf now s c0 g0 t0 p off order ts) as [E|[cl [parts [lst [Hc [_ [_ [_ E]]]]]]]];
+  - destruct (add_consumer_offset_shape cf now s c0 g0 t0 p off order ts) as [E|[cl [parts [lst [Hc [_ [_ [_ [_ E]]]]]]]]];
       rewrite E; intros H; injection H as <- _; [exact Ha|].
     apply (absent_gt_set _ _ _ _ _ _ _ Ha Hc). intros -> grp' Hg Hold. cbn [cl_consumer] in Hg. rewrite get_set in Hg.
     destruct (g0 =? g) eqn:Eg; [|exact (Hold _ Hg)]. apply Z.eqb_eq in Eg. subst g0. injection Hg as <-.
@@ -1476,7 +1476,7 @@ Proof.
       [injection H as <- _; exact Ha|discriminate|injection H as <- _].
     apply (absent_topic_set _ _ _ _ _ _ Ha Hc). intros -> Hb Hcons. cbn [cl_broker cl_consumer]. split; [|exact Hcons].
     rewrite get_set. destruct (t0 =? t) eqn:Et; [|exact Hb]. apply Z.eqb_eq in Et. exfalso. apply Hcr. cbn. auto.
-  - destruct (add_consumer_offset_shape cf now s c0 g t0 p off order ts) as [E|[cl [parts [lst [Hc [_ [_ [Hbt E]]]]]]]];
+  - destruct (add_consumer_offset_shape cf now s c0 g t0 p off order ts) as [E|[cl [parts [lst [Hc [_ [_ [Hbt [_ E]]]]]]]]];
       rewrite E; intros H; injection H as <- _; [exact Ha|].
     apply (absent_topic_set _ _ _ _ _ _ Ha Hc). intros -> Hb Hcons. cbn [cl_broker cl_consumer]. split; [exact Hb|].
     intros g1 grp Hin. apply in_set_cases in Hin. destruct Hin as [Hin|Hin]; [|exact (Hcons _ _ Hin)].
@@ -1798,4 +1798,167 @@ Lemma ex_rejected :
 Proof.
   vm_compute. repeat split; try reflexivity; try tauto.
   intros [H|[H|[]]]; discriminate.
+Qed.
+
+(* ------------------------------------------------------------------------------------------ *)
+(* 11. Where the code is NOT exact (recorded findings of C09), and the storage accept predicate *)
+(* ------------------------------------------------------------------------------------------ *)
+
+(* 11.1 lastCommit is the timestamp of the most recently APPENDED commit (of any partition), not of the newest one ------- *)
+
+(* the timestamps of all commits the group currently stores *)
+Definition stored_ts (grp : cgroup) : list Z :=
+  flat_map (fun tp => flat_map (fun pr => match pr_ring pr with Some w => map co_ts (somes w) | None => [] end) (snd tp))
+           (g_topics grp).
+
+(* what a commit does to g_last: it becomes the commit's timestamp (append) or stays what it was *)
+Theorem g_last_after_commit cf now s c g t p off order ts s' rep cl' grp' :
+  step cf now s (SetConsumerOffset c g t p off order ts) = Done s' rep ->
+  get s' c = Some cl' -> get (cl_consumer cl') g = Some grp' ->
+  g_last grp' = ts \/ exists cl, get s c = Some cl /\ g_last grp' = g_last (grp_or_empty cl g).
+Proof.
+  cbn [step].
+  destruct (add_consumer_offset_shape cf now s c g t p off order ts) as [E|[cl [parts [lst [Hc [_ [_ [_ [Hl E]]]]]]]]];
+    rewrite E; intros H; injection H as <- _.
+  - intros Hc' Hg'. right. exists cl'. split; [exact Hc'|]. unfold grp_or_empty. rewrite Hg'. reflexivity.
+  - rewrite get_set_eq. intros H. injection H as <-. cbn [cl_consumer]. rewrite get_set_eq. intros H. injection H as <-.
+    cbn [g_last]. destruct Hl as [->| ->]; [left; reflexivity|right; exists cl; split; [exact Hc|reflexivity]].
+Qed.
+
+(* inside the int64 guard a group is answered not-found exactly when g_last is older than the cut-off ... *)
+Theorem purged_iff_last_appended_expired cf now s c g cl grp :
+  in_i64 ((now - cf_expire cf) * 1000) ->
+  get s c = Some cl -> get (cl_consumer cl) g = Some grp ->
+  (obs cf now s (FetchConsumer c g) = Some RNil <-> g_last grp < (now - cf_expire cf) * 1000).
+Proof.
+  intros Hg Hc Hgr. rewrite <- (expired_spec _ _ _ Hg).
+  rewrite (obs_cluster _ _ s (FetchConsumer c g) c eq_refl eq_refl), Hc. cbn [cluster_reply]. rewrite Hgr.
+  destruct (expired cf now (g_last grp)); [tauto|]. split; [|discriminate].
+  destruct (fetch_topics_lags (cl_broker cl) (snap_of grp)); cbn [option_map]; discriminate.
+Qed.
+
+(* ... which is NOT "every stored commit is older than the cut-off": expire-group 1000 s; at 2000 s partition 0 commits with
+   timestamp 1 900 000 and then partition 1 gets its first commit, timestamp 1 100 000 (an append, so lastCommit goes BACK);
+   at 2200 s (cut-off 1 200 000) the group is reported not found and unlisted although it stores a commit 300 s old *)
+Definition lc_cf : config := mkConfig 3 1000 0 (fun _ => true).
+Definition lc_hist : list (Z * req) :=
+  [ (2000, SetBrokerOffset 1 1 0 2 100); (2000, SetBrokerOffset 1 1 1 2 100);
+    (2000, SetConsumerOffset 1 1 1 0 90 1 1900000); (2000, SetConsumerOffset 1 1 1 1 90 1 1100000) ].
+Definition lc_state : state := match run lc_cf (init_state [1]) lc_hist with Some (s, _) => s | None => [] end.
+
+Theorem not_expired_but_purged_refuted :
+  exists cf cls h s reps now c g cl grp ts,
+    NoDup cls /\ run cf (init_state cls) h = Some (s, reps) /\ in_i64 ((now - cf_expire cf) * 1000) /\
+    get s c = Some cl /\ get (cl_consumer cl) g = Some grp /\
+    In ts (stored_ts grp) /\ ~ ts < (now - cf_expire cf) * 1000 /\
+    obs cf now s (FetchConsumer c g) = Some RNil /\
+    ~ In g (names (obs cf now (after cf now s (FetchConsumer c g)) (FetchConsumers c))).
+Proof.
+  exists lc_cf, [1], lc_hist, lc_state, (repeat RNone 4), 2200, 1, 1.
+  assert (Hr : run lc_cf (init_state [1]) lc_hist = Some (lc_state, repeat RNone 4)) by (vm_compute; reflexivity).
+  destruct (get lc_state 1) as [cl|] eqn:Hc; [|vm_compute in Hc; discriminate].
+  destruct (get (cl_consumer cl) 1) as [grp|] eqn:Hg; [|vm_compute in Hc; injection Hc as <-; vm_compute in Hg; discriminate].
+  exists cl, grp, 1900000.
+  split; [repeat constructor; intros []|]. split; [exact Hr|].
+  split; [unfold in_i64; vm_compute; split; [discriminate|reflexivity]|].
+  split; [first [reflexivity|exact Hc]|]. split; [first [reflexivity|exact Hg]|].
+  vm_compute in Hc. injection Hc as <-. vm_compute in Hg. injection Hg as <-.
+  split; [vm_compute; tauto|]. split; [vm_compute; discriminate|].
+  split; [vm_compute; reflexivity|]. vm_compute. tauto.
+Qed.
+
+(* 11.2 delete-group-topic for a topic the group does not consume ------------------------------------------------------------ *)
+
+(* a group that has topics is unaffected ... *)
+Theorem delete_foreign_topic_keeps_nonempty_group cf now now' s c g t cl grp :
+  wf_state s -> t <> 0 ->
+  get s c = Some cl -> get (cl_consumer cl) g = Some grp -> get (g_topics grp) t = None -> g_topics grp <> [] ->
+  let s' := after cf now s (DeleteGroup c g t) in
+  (forall x, In x (names (obs cf now' s' (FetchConsumers c))) <-> In x (names (obs cf now' s (FetchConsumers c)))) /\
+  obs cf now' s' (FetchConsumer c g) = obs cf now' s (FetchConsumer c g).
+Proof.
+  intros Hwf Ht Hc Hg Hf Hne s'. split.
+  - intros x. destruct (delete_group_topic_listing cf now now' s c g t Hwf Ht) as [_ [Hl _]]. fold s' in Hl. rewrite Hl.
+    split; [tauto|]. intros Hin. split; [exact Hin|]. intros _.
+    destruct (g_topics grp) as [|[t' v] r] eqn:Et; [contradiction|].
+    exists cl, grp, t'. split; [exact Hc|]. split; [exact Hg|].
+    assert (Hg' : get (g_topics grp) t' = Some v) by (rewrite Et; cbn; rewrite Z.eqb_refl; reflexivity).
+    split; [|rewrite Hg'; discriminate]. cbn in Hf. destruct (t' =? t) eqn:E; [discriminate|]. apply Z.eqb_neq. exact E.
+  - unfold s'. rewrite (obs_after_dg _ _ _ _ _ _ _ (FetchConsumer c g) eq_refl eq_refl).
+    rewrite (obs_cluster _ _ s (FetchConsumer c g) c eq_refl eq_refl), Hc.
+    cbn [option_map cluster_reply cl_consumer cl_broker]. rewrite get_dg_cons_topic by exact Ht. rewrite Hg.
+    assert (Hr : remove (g_topics grp) t = g_topics grp).
+    { unfold remove. clear - Hf. induction (g_topics grp) as [|[k v] r IH]; [reflexivity|]. cbn in Hf |- *.
+      destruct (k =? t); [discriminate|]. cbn. f_equal. apply IH. exact Hf. }
+    rewrite Hr. destruct (g_topics grp) eqn:Et; [contradiction|]. cbn [is_nil]. rewrite <- Et. destruct grp; reflexivity.
+Qed.
+
+(* ... but a group WITHOUT topics (here: created by an owner update for a topic the brokers do not know) is dropped from
+   the consumer list by a delete-group-topic that names a topic it never had *)
+Definition fg_cf : config := mkConfig 3 1000 0 (fun _ => true).
+Definition fg_state : state :=
+  match run fg_cf (init_state [1]) [(1600000000, SetConsumerOwner 1 1 7 0 1 1)] with Some (s, _) => s | None => [] end.
+
+Theorem delete_foreign_topic_unlists_group_refuted :
+  exists cf cls h s reps now c g t cl grp,
+    NoDup cls /\ run cf (init_state cls) h = Some (s, reps) /\ t <> 0 /\
+    get s c = Some cl /\ get (cl_consumer cl) g = Some grp /\ get (g_topics grp) t = None /\
+    In g (names (obs cf now s (FetchConsumers c))) /\
+    ~ In g (names (obs cf now (after cf now s (DeleteGroup c g t)) (FetchConsumers c))).
+Proof.
+  exists fg_cf, [1], [(1600000000, SetConsumerOwner 1 1 7 0 1 1)], fg_state, [RNone], 1600000000, 1, 1, 5.
+  destruct (get fg_state 1) as [cl|] eqn:Hc; [|vm_compute in Hc; discriminate].
+  destruct (get (cl_consumer cl) 1) as [grp|] eqn:Hg; [|vm_compute in Hc; injection Hc as <-; vm_compute in Hg; discriminate].
+  exists cl, grp. split; [repeat constructor; intros []|]. split; [vm_compute; reflexivity|]. split; [discriminate|].
+  split; [first [reflexivity|exact Hc]|]. split; [first [reflexivity|exact Hg]|].
+  vm_compute in Hc. injection Hc as <-. vm_compute in Hg. injection Hg as <-.
+  split; [reflexivity|]. split; [vm_compute; tauto|]. vm_compute. tauto.
+Qed.
+
+(* 11.3 storage's acceptConsumerGroup as a function of the four booleans (list set?, pattern matches?) ----------------------- *)
+
+(* inmemory.go acceptConsumerGroup, statement by statement *)
+Definition storage_accept (a_set a_m d_set d_m : bool) : bool :=
+  if a_set && negb a_m then false
+  else if d_set && d_m then false
+  else true.
+
+Lemma storage_accept_formula a_set a_m d_set d_m :
+  storage_accept a_set a_m d_set d_m = (negb a_set || a_m) && negb (d_set && d_m).
+Proof. destruct a_set, a_m, d_set, d_m; reflexivity. Qed.
+
+(* all 16 combinations: tracked exactly when it matches the allowlist (if one is set) and not the denylist (if one is set) *)
+Theorem storage_accept_spec : forall a_set a_m d_set d_m,
+  storage_accept a_set a_m d_set d_m = true <->
+  (a_set = true -> a_m = true) /\ (d_set = true -> d_m = false).
+Proof. intros [] [] [] []; unfold storage_accept; cbn; intuition congruence. Qed.
+
+(* the storage module whose lists are two patterns: cf_accept is storage_accept of the patterns' verdicts *)
+Definition with_lists (cf : config) (a_set : bool) (allow : Z -> bool) (d_set : bool) (deny : Z -> bool) : config :=
+  mkConfig (cf_intervals cf) (cf_expire cf) (cf_min_distance cf) (fun g => storage_accept a_set (allow g) d_set (deny g)).
+
+(* for arbitrary match functions of the two patterns: a group that fails the allowlist (when set) or matches the denylist
+   (when set) never enters storage and is never shown, on any ingestion path, in any history *)
+Theorem storage_lists_enforced cf a_set allow d_set deny cls g h s reps :
+  (a_set = true /\ allow g = false) \/ (d_set = true /\ deny g = true) ->
+  run (with_lists cf a_set allow d_set deny) (init_state cls) h = Some (s, reps) ->
+  (forall c cl, get s c = Some cl -> get (cl_consumer cl) g = None) /\
+  Forall2 (fun nr rep => forall c, ~ mentions_group c g (snd nr) rep) h reps.
+Proof.
+  intros Hrej. apply storage_rejected_never_enters. cbn [with_lists cf_accept].
+  destruct (storage_accept a_set (allow g) d_set (deny g)) eqn:E; [|reflexivity].
+  apply storage_accept_spec in E. destruct E as [Ea Ed]. destruct Hrej as [[Hs Hm]|[Hs Hm]].
+  - rewrite (Ea Hs) in Hm. discriminate.
+  - rewrite (Ed Hs) in Hm. discriminate.
+Qed.
+
+(* and every other group is processed as if no lists were configured *)
+Theorem storage_lists_accepted_unfiltered cf a_set allow d_set deny now s r :
+  (forall g, ingest_group r = Some g -> (a_set = true -> allow g = true) /\ (d_set = true -> deny g = false)) ->
+  step (with_lists cf a_set allow d_set deny) now s r = step (no_lists cf) now s r.
+Proof.
+  intros H. rewrite storage_accepted_as_if_no_lists.
+  - reflexivity.
+  - unfold rejected. destruct (ingest_group r) as [g|]; [|reflexivity]. cbn [with_lists cf_accept].
+    apply negb_false_iff. apply storage_accept_spec. apply H. reflexivity.
 Qed.
